@@ -31,6 +31,13 @@ static _Bool nv_has_wolfe(const struct nv_state* s, const struct nv_state* o, co
 static _Bool nv_has_strong_wolfe(const struct nv_state* s, const struct nv_state* o, const struct nv_vector* d, double c2)
 { _Bool r = nv_nondet__Bool(); nv_swolfe.ver = s->ver; nv_swolfe.origin = o->ver; nv_swolfe.t = 0; nv_swolfe.c = c2; nv_swolfe.res = r; return r; }
 
+/* solver_state_t::has_descent (real inline body): true exactly for a negative slope; a NaN slope is NOT a descent direction */
+#define NV_CONTRACT_state_has_descent \
+__CPROVER_requires(NV_STATE_FRESH(self) && __CPROVER_is_fresh(descent, sizeof(*descent))) \
+__CPROVER_assigns() \
+__CPROVER_ensures(__CPROVER_return_value == (self->dg < 0.0)) \
+__CPROVER_ensures(self->dg != self->dg ==> !__CPROVER_return_value)
+
 /* assumed contract of solver_state_t::update(x0 + t*d): the state becomes the single evaluation at the new point */
 static _Bool nv_state_update_along(struct nv_state* s, const struct nv_state* s0, double t, const struct nv_vector* d)
 {
